@@ -81,6 +81,7 @@ type propD struct {
 	dflt                       *string
 	emptyIsDefault, disabled   bool
 	noReason                   bool // disabled WITHOUT a reason (Disabled=true, DisabledReason=nil: a struct literal or a rebuilt schema)
+	disp                       *sx.Node // display value (disp NAME DESC ICON); nil = none
 }
 
 func strsSx(l []string) *sx.Node {
@@ -95,7 +96,11 @@ func (p propD) sx() *sx.Node {
 	if p.disabled && !p.noReason {
 		reason = sx.S("off")
 	}
-	return sx.L(sx.S(p.name), sx.L(sx.A("prop"), p.t, none(), sx.B(p.required), strsSx(p.requiredIf), strsSx(p.requiredIfNot),
+	disp := none()
+	if p.disp != nil {
+		disp = p.disp
+	}
+	return sx.L(sx.S(p.name), sx.L(sx.A("prop"), p.t, disp, sx.B(p.required), strsSx(p.requiredIf), strsSx(p.requiredIfNot),
 		strsSx(p.conflicts), dOptS(p.dflt), sx.L(), sx.B(p.emptyIsDefault), sx.B(p.disabled), reason))
 }
 func dObject(id string, unenforced bool, props ...propD) *sx.Node {
